@@ -247,6 +247,12 @@ func (m *Machine) timeSub(t, u Value) Value {
 	case uz:
 		return canon(uint64(int64(1<<63-1)), 64, true)
 	}
+	if x, ok := timeSecs(t); ok {
+		if y, ok := timeSecs(u); ok {
+			// whole seconds: (x - y) * 1e9, one multiplication of the difference
+			return m.binop(token.MUL, i64T, m.binop(token.SUB, i64T, x, y, i64T), uint64(1_000_000_000), i64T)
+		}
+	}
 	return m.binop(token.SUB, i64T, m.timeNs(t), m.timeNs(u), i64T)
 }
 
